@@ -350,6 +350,7 @@ macro_rules! c11_step {
             let newfd = vgm::FD0 + 2 + q as RawFd;
             let he_before = vgm::vg().he_calls;
             let op: u8 = $op;
+            let old_kick = rr[q].kick;
             match op {
                 0 => {
                     // SET_FEATURES without PROTOCOL_FEATURES: enables all rings
@@ -451,6 +452,20 @@ macro_rules! c11_step {
                 }
                 k += 1;
             }
+            // C09: a kick descriptor that was replaced, cleared or dropped by GET_VRING_BASE is closed (once);
+            // descriptors still installed are open
+            if (op == 1 || op == 2 || op == 5) && old_kick.is_some() {
+                let o = old_kick.unwrap();
+                assert!(vgm::vg().closed[(o - vgm::FD0) as usize], "C09: the ring's previous kick descriptor must be closed when it is replaced / dropped");
+                assert!(vgm::registrations_of(o) == 0, "C11: a dropped kick descriptor is no longer watched");
+            }
+            let mut k = 0;
+            while k < 2 {
+                if let Some(fd) = rr[k].kick {
+                    assert!(!vgm::vg().closed[(fd - vgm::FD0) as usize], "C09: an installed kick descriptor was closed");
+                }
+                k += 1;
+            }
             assert!(!vgm::vg().reg_overflow && !vgm::vg().consumed_empty && !vgm::vg().double_close);
             kani::cover!(rr[1 - q].started && rr[1 - q].kick.is_some() && (rr[q].started || op == 5), "witness: the step runs from a pre-state with started rings");
         } }
@@ -458,15 +473,15 @@ macro_rules! c11_step {
 }
 // @harness props=C11 tier=quick reach=off timeout=1200 mem=24 bound="inductive step set_features_nopf: 2 Mutex rings, every combination of per-ring pre-states (not started / started without kick fd / started with kick fd) x enabled x pending kick, symbolic ring" stubs="Epoll::ctl (ghost interest lists; EEXIST/ENOENT as Ok), EventConsumer::consume, EventNotifier::notify, close/OwnedFd::drop"
 c11_step!(c11_step_set_features_nopf, mk_handler_m, 0);
-// @harness props=C11 tier=quick reach=off timeout=1200 mem=24 bound="inductive step set_kick_new: 2 Mutex rings, every combination of per-ring pre-states (not started / started without kick fd / started with kick fd) x enabled x pending kick, symbolic ring" stubs="Epoll::ctl (ghost interest lists; EEXIST/ENOENT as Ok), EventConsumer::consume, EventNotifier::notify, close/OwnedFd::drop"
+// @harness props=C11,C09 tier=quick reach=off timeout=1200 mem=24 bound="inductive step set_kick_new: 2 Mutex rings, every combination of per-ring pre-states (not started / started without kick fd / started with kick fd) x enabled x pending kick, symbolic ring" stubs="Epoll::ctl (ghost interest lists; EEXIST/ENOENT as Ok), EventConsumer::consume, EventNotifier::notify, close/OwnedFd::drop"
 c11_step!(c11_step_set_kick_new, mk_handler_m, 1);
-// @harness props=C11 tier=quick reach=off timeout=1200 mem=24 bound="inductive step set_kick_none: 2 Mutex rings, every combination of per-ring pre-states (not started / started without kick fd / started with kick fd) x enabled x pending kick, symbolic ring" stubs="Epoll::ctl (ghost interest lists; EEXIST/ENOENT as Ok), EventConsumer::consume, EventNotifier::notify, close/OwnedFd::drop"
+// @harness props=C11,C09 tier=quick reach=off timeout=1200 mem=24 bound="inductive step set_kick_none: 2 Mutex rings, every combination of per-ring pre-states (not started / started without kick fd / started with kick fd) x enabled x pending kick, symbolic ring" stubs="Epoll::ctl (ghost interest lists; EEXIST/ENOENT as Ok), EventConsumer::consume, EventNotifier::notify, close/OwnedFd::drop"
 c11_step!(c11_step_set_kick_none, mk_handler_m, 2);
 // @harness props=C11 tier=quick reach=off timeout=1200 mem=24 bound="inductive step set_call: 2 Mutex rings, every combination of per-ring pre-states (not started / started without kick fd / started with kick fd) x enabled x pending kick, symbolic ring" stubs="Epoll::ctl (ghost interest lists; EEXIST/ENOENT as Ok), EventConsumer::consume, EventNotifier::notify, close/OwnedFd::drop"
 c11_step!(c11_step_set_call, mk_handler_m, 3);
 // @harness props=C11 tier=quick reach=off timeout=1200 mem=24 bound="inductive step set_enable: 2 Mutex rings, every combination of per-ring pre-states (not started / started without kick fd / started with kick fd) x enabled x pending kick, symbolic ring" stubs="Epoll::ctl (ghost interest lists; EEXIST/ENOENT as Ok), EventConsumer::consume, EventNotifier::notify, close/OwnedFd::drop"
 c11_step!(c11_step_set_enable, mk_handler_m, 4);
-// @harness props=C11 tier=quick reach=off timeout=1200 mem=24 bound="inductive step get_vring_base: 2 Mutex rings, every combination of per-ring pre-states (not started / started without kick fd / started with kick fd) x enabled x pending kick, symbolic ring" stubs="Epoll::ctl (ghost interest lists; EEXIST/ENOENT as Ok), EventConsumer::consume, EventNotifier::notify, close/OwnedFd::drop"
+// @harness props=C11,C09 tier=quick reach=off timeout=1200 mem=24 bound="inductive step get_vring_base: 2 Mutex rings, every combination of per-ring pre-states (not started / started without kick fd / started with kick fd) x enabled x pending kick, symbolic ring" stubs="Epoll::ctl (ghost interest lists; EEXIST/ENOENT as Ok), EventConsumer::consume, EventNotifier::notify, close/OwnedFd::drop"
 c11_step!(c11_step_get_vring_base, mk_handler_m, 5);
 // @harness props=C11 tier=quick reach=off timeout=1200 mem=24 bound="inductive step reset_device: 2 Mutex rings, every combination of per-ring pre-states (not started / started without kick fd / started with kick fd) x enabled x pending kick, symbolic ring" stubs="Epoll::ctl (ghost interest lists; EEXIST/ENOENT as Ok), EventConsumer::consume, EventNotifier::notify, close/OwnedFd::drop"
 c11_step!(c11_step_reset_device, mk_handler_m, 6);
